@@ -41,6 +41,13 @@ def obligation_name(bundle, unit, desc):
             # prefer the span labelled as the failed clause
             if cl is None or (w.get('label') or '').startswith('failed'):
                 cl = w['clause']
+    if cl and cl['kind'] == 'hint':
+        snip = ''
+        for w in desc['where']:
+            if w.get('primary'):
+                snip = w.get('text') or ''
+        tags = ('[' + ','.join(cl['tags']) + '] ') if cl['tags'] else ''
+        return '%s/%s: %s -- %s`%s` (proof hint #%d)' % (bundle, unit, desc['message'], tags, snip[:140], cl['id'])
     if cl:
         tags = ('[' + ','.join(cl['tags']) + '] ') if cl['tags'] else ''
         return '%s/%s: %s -- %s %s%s' % (bundle, unit, desc['message'], cl['kind'], tags, cl['text'][:160])
@@ -187,6 +194,8 @@ def run_property(prop, cfg, tier, seed, jobs, work, rebaseline=False, only=None)
         known = D.load_known_findings()
         # one VIOLATION per distinct obligation; hunter bound to the failed obligation
         seen = set()
+        _UNSET = object()
+        hunted = _UNSET
         os.makedirs(os.path.join(VERIF, 'replays'), exist_ok=True)
         for f in failures:
             if f['obligation'] in seen:
@@ -194,11 +203,13 @@ def run_property(prop, cfg, tier, seed, jobs, work, rebaseline=False, only=None)
             seen.add(f['obligation'])
             case = f.get('case')
             if case is None and not only:
-                try:
-                    case = hunter.hunt(prop, f, tier, seed, work)
-                except Exception as ex:
-                    case = None
-                    log('hunter error: %r' % (ex,))
+                if hunted is _UNSET:
+                    try:
+                        hunted = hunter.hunt(prop, f, tier, seed, work)
+                    except Exception as ex:
+                        hunted = None
+                        log('hunter error: %r' % (ex,))
+                case = hunted
             kf = None
             for k in known:
                 if k.get('property') == prop and k.get('unit', '') in f['obligation'] and (case is None or k.get('input') is None or k.get('input') == (case or {}).get('input_id')):
